@@ -538,6 +538,34 @@ func (s *script) tick() {
 	e.epochStart = time.Now()
 	s.kinds["tick"]++
 	s.emit("tick 2", "ok")
+	s.checkExpired()
+}
+
+// checkExpired (O): the reservation period has passed since the last operation and nothing was
+// locked or released since, so no reservation is in force: every unspent, mature output of the
+// store that no pooled transaction spends is spendable again — for SpendableOutputs, for Balance
+// and for input selection alike.
+func (s *script) checkExpired() {
+	e := s.e
+	_, utxos, err := e.ws.UnspentSiacoinElements()
+	must(err)
+	pv := e.pool()
+	spendable := s.spendableSet()
+	var want types.Currency
+	for _, u := range utxos {
+		if u.MaturityHeight > e.storeHeight() || pv.spent[u.ID] {
+			continue
+		}
+		want = want.Add(u.SiacoinOutput.Value)
+		if !spendable[u.ID] {
+			s.c.Oracle("expiry-did-not-unlock", "the reservation period has passed, yet output %d is not listed by SpendableOutputs()", e.ids[u.ID])
+		}
+	}
+	bal, err := e.w.Balance()
+	must(err)
+	if !bal.Spendable.Equals(want) {
+		s.c.Oracle("expiry-did-not-unlock", "the reservation period has passed, yet Balance().Spendable = %s while the unspent mature outputs no pooled transaction spends sum to %s", cur(bal.Spendable), cur(want))
+	}
 }
 
 func (s *script) restart(fresh bool) {
